@@ -8,14 +8,15 @@ open NodisVerif.TxProg
 open NodisVerif.Proofs.Proto
 
 /-- the conditions that come from outside `acquire` / `newKey` / `delKey` / `commit` themselves: the callers'
-    lock order, the mode in which a key to be created / deleted was locked, and the atomicity of the
-    `s.mu` section of delKey.  They are proved to hold in every reachable state in Proofs/TxProgGuard.lean. -/
+    lock order, the mode in which a key to be created / deleted was locked, the atomicity of the
+    `s.mu` section of delKey, and that the record gc validated is still the indexed one when it unlinks it.  They are proved to hold in every reachable state in Proofs/TxProgGuard.lean. -/
 def Guarded (c : Cfg) (t : Tid) : Prop :=
   ((c.loc t).pc = .a7 → ∀ g ∈ (c.loc t).held, g.key < (c.loc t).key) ∧
   ((c.loc t).pc = .n3 → assoc c.sh.pending (c.loc t).key = some (c.loc t).m →
       (⟨(c.loc t).m, (c.loc t).key, .w, true⟩ : Hold) ∈ (c.loc t).held) ∧
   ((c.loc t).pc = .d2 → ∀ r h, assoc c.sh.index (c.loc t).key = some r → holdOf (c.loc t) r = some h → h.mode = .w) ∧
-  ((c.loc t).pc = .d3 → c.sh.lookup (c.loc t).key = none)
+  ((c.loc t).pc = .d3 → c.sh.lookup (c.loc t).key = none) ∧
+  ((c.loc t).pc = .g8 → assoc c.sh.index (c.loc t).key = some (c.loc t).m)
 
 section Cases
 variable {c : Cfg} {p : PState} {t : Tid} {ch : Choice} {s' : Shared} {l' : Loc} {e : Option Ev}
